@@ -14,6 +14,11 @@ CHECKS = {
                      "equal and inverted fast/slow), ChandelierExit for window periods n<=4 (5), all real inputs / independent bar fields, every prefix up to t=8 (12), against closed-form "
                      "weighted sums; violations replayed natively.",
                 technique="symbolic execution of rustc MIR into z3 with symbolic smoothing factor; polynomial normal form + NRA; native replay", design='4/C02'),
+    'C03': dict(text="Bounded model checking by solver: RSI (symbolic period), FastStochastic (scalar/bar), SlowStochastic (compositional: EMA with symbolic period of the real "
+                     "FastStochastic outputs), ROC, EfficiencyRatio, PPO (concrete period tuples incl. inverted), CCI, MFI, OBV equal their documented formulas for all positive real "
+                     "prices / valid bars wherever the reference denominator is non-zero, window periods n<=4 (5), every prefix up to t=2n+3 (3n+3); violations replayed natively with the "
+                     "property's condition-number tolerance.",
+                technique="symbolic execution of rustc MIR into z3; quotient/polynomial normal forms + UF abstraction with sign lemmas, then NRA; native replay", design='4/C03'),
 }
 NA = {
     'C19': "decided by rustc's type checker once and for all; there is no input, state or schedule for an SMT/SAT solver to quantify over",
